@@ -48,6 +48,15 @@ func main() {
 			}
 		}
 		switch {
+		case strings.HasPrefix(mode, "slowpath:"): // slowpath:<ms>:<path> - the dialog stays open for a while
+			f := strings.SplitN(mode, ":", 3)
+			if len(f) == 3 {
+				ms, _ := strconv.Atoi(f[1])
+				time.Sleep(time.Duration(ms) * time.Millisecond)
+				fmt.Println(f[2])
+				os.Exit(0)
+			}
+			os.Exit(1)
 		case strings.HasPrefix(mode, "path:"):
 			fmt.Println(mode[5:])
 			os.Exit(0)
